@@ -2232,6 +2232,7 @@ class IrregularLattice(Lattice):
             self.N_sites_per_ring = counts[0]
         else:
             self.N_sites_per_ring = None
+        self._mps_sites_cache = None
 
     # mps2lat_idx and lat2mps_idx work thanks to the way _perm is defined,
     # mps2lat_values, mps2lat_values_masked work as well
@@ -2417,6 +2418,7 @@ class HelicalLattice(Lattice):
             mps_fix_u = np.nonzero(order_[:, -1] == u)[0]
             self._mps_fix_u.append(mps_fix_u)
         self._mps_fix_u = tuple(self._mps_fix_u)
+        self._mps_sites_cache = None
 
     def mps_idx_fix_u(self, u=None):
         # doc: see Lattice; as for the IrregularLattice, `_perm` has entries for sites not in the MPS
